@@ -4,7 +4,7 @@ package dsim
 
 func (r *Run) profileSetup() bool {
 	switch r.plan.Profile {
-	case "crud", "tx":
+	case "crud", "tx", "txenum":
 		return true
 	}
 	r.res.HarnessErr = "unknown profile " + r.plan.Profile
@@ -17,7 +17,7 @@ func (r *Run) execProfileTx(t *Task, idx int, tx *TxPlan) bool {
 
 func (r *Run) profileFinal() {
 	switch r.plan.Profile {
-	case "crud", "tx":
+	case "crud", "tx", "txenum":
 		r.integritySoundness()
 	}
 }
